@@ -1704,8 +1704,21 @@ def _exc_class_only(x):
     return ":".join(x.split(":")[:2]) if isinstance(x, str) and x.startswith("SETUP-EXC") else x
 
 
+def _unwrap(x):
+    return x["result"] if isinstance(x, dict) and "ARG-MUTATED" in x else x
+
+
+def _mutated(x):
+    return isinstance(x, dict) and "ARG-MUTATED" in x
+
+
+def hist_value_same(full, fresh):
+    return same_result(_exc_class_only(_unwrap(full)), _exc_class_only(_unwrap(fresh)))
+
+
 def hist_same(full, fresh):
-    return same_result(_exc_class_only(full), _exc_class_only(fresh))
+    """the property holds on this history: same value, and no argument object of the caller was written to"""
+    return hist_value_same(full, fresh) and not _mutated(full) and not _mutated(fresh)
 
 
 def hist_unjudged(full, fresh):
@@ -1718,22 +1731,34 @@ def hist_unjudged(full, fresh):
     return None
 
 
+def hist_class(full, fresh):
+    """None (holds) | 'unjudged' | 'one-sided' (crash / setup error on one side) | 'value' (the last result differs) |
+    'mutation' (same value, but an argument object of the caller was written to)"""
+    if hist_unjudged(full, fresh) is not None:
+        return "unjudged"
+    if hist_same(full, fresh):
+        return None
+    if _crash(full) or _crash(fresh) or _setup_exc(full) or _setup_exc(fresh):
+        return "one-sided"
+    return "value" if not hist_value_same(full, fresh) else "mutation"
+
+
 def hist_worker(history):
     """history in one interpreter vs last call in a fresh one (both forked from this clean process);
-    on a difference the history is shrunk"""
+    on a difference the history is shrunk (keeping the kind of the failure)"""
     import pde  # noqa: F401  (only imported - nothing of py-pde has been called in this process)
     full = forked(history, False)
     fresh = forked(history, True)
-    out = {"full": full, "fresh": fresh, "same": hist_same(full, fresh)}
-    un = hist_unjudged(full, fresh)
-    if un is not None:
-        out["malformed"] = un[:120]
+    cls = hist_class(full, fresh)
+    out = {"full": full, "fresh": fresh, "same": cls is None, "class": cls}
+    if cls == "unjudged":
+        out["malformed"] = hist_unjudged(full, fresh)[:120]
         out["same"] = True
         return out
-    if _crash(full) or _crash(fresh) or _setup_exc(full) or _setup_exc(fresh):
+    if cls == "one-sided":
         out["one_sided"] = True
-    if not out["same"]:
-        # greedy shrinking: drop operations (never the last) while the difference persists
+    if cls is not None:
+        # greedy shrinking: drop operations (never the last) while the same kind of failure persists
         h = copy.deepcopy(history)
         budget = 40
         changed = True
@@ -1746,8 +1771,7 @@ def hist_worker(history):
                 del cand["ops"][i]
                 budget -= 1
                 f1, f2 = forked(cand, False), forked(cand, True)
-                if hist_unjudged(f1, f2) is None and not hist_same(f1, f2) and \
-                        bool(out.get("one_sided")) == bool(_crash(f1) or _crash(f2) or _setup_exc(f1) or _setup_exc(f2)):
+                if hist_class(f1, f2) == cls:
                     h, changed = cand, True
                     out["full"], out["fresh"] = f1, f2
         out["shrunk"] = h
@@ -1759,10 +1783,10 @@ def hist_worker_noshrink(history):
     import pde  # noqa: F401
     full = forked(history, False)
     fresh = forked(history, True)
-    out = {"full": full, "fresh": fresh, "same": hist_same(full, fresh)}
-    un = hist_unjudged(full, fresh)
-    if un is not None:
-        out["malformed"] = un[:120]
+    cls = hist_class(full, fresh)
+    out = {"full": full, "fresh": fresh, "same": cls is None, "class": cls}
+    if cls == "unjudged":
+        out["malformed"] = hist_unjudged(full, fresh)[:120]
     return out
 
 
@@ -2353,8 +2377,8 @@ def history_key(h, res, mode="S"):
     kinds = [o["op"] for o in ops]
     if isinstance(res, dict) and res.get("one_sided"):
         return dict(KEY_CRASH, call_site="history:" + last["op"])
-    if isinstance(res, dict) and any(isinstance(res.get(x), dict) and "ARG-MUTATED" in res[x] for x in ("full", "fresh")):
-        return {"call_site": "history:" + last["op"], "symptom": "an argument object of the caller is mutated"}
+    if isinstance(res, dict) and res.get("class") == "mutation":
+        return {"call_site": "history:" + last["op"], "symptom": "an argument object of the caller is mutated (the value is not affected)"}
     if mode == "J" and frozen_const_pattern(h):
         return KEY_FROZEN
     if last["op"] == "interpolate" and kinds[:-1].count("interpolate") >= 1 and any(k in kinds for k in ("collection", "assign_full")):
@@ -2418,8 +2442,8 @@ def run_histories(ctx):
             if not r["same"]:
                 hh = r.get("shrunk", h)
                 key = history_key(hh, r, mode)
-                ctx.monitor_fail(leg, hh, {"last_result_in_history": r["full"]}, {"same_call_in_fresh_interpreter": r["fresh"]},
-                                 "history: " + str(key.get("symptom")), key=key)
+                ctx.monitor_fail(leg, hh, {"last_result_in_history": r["full"], "failure_class": r.get("class")},
+                                 {"same_call_in_fresh_interpreter": r["fresh"]}, "history: " + str(key.get("symptom")), key=key)
     # a subset in really new interpreters (one history per process), validating the fork shortcut
     from harness.common.lean import BrokenCheck
     t0, c0 = time.time(), _cpu()
@@ -2443,8 +2467,8 @@ def run_histories(ctx):
             ctx.monitor_evals += 1
             if not hist_same(a, b) or _crash(a) or (isinstance(a, str) and a.startswith("EXC: ")):
                 # the forked run of this history agreed: a difference (or a dead interpreter) here is one more failure
-                key = history_key(h, {"one_sided": _crash(a) or _crash(b)}, "S")
-                ctx.monitor_fail("histories:new-interpreter", h, {"last_result_in_history": a}, {"same_call_in_fresh_interpreter": b},
+                key = history_key(h, {"one_sided": _crash(a) or _crash(b), "class": hist_class(a, b)}, "S")
+                ctx.monitor_fail("histories:new-interpreter", h, {"last_result_in_history": a, "failure_class": hist_class(a, b)}, {"same_call_in_fresh_interpreter": b},
                                  "history: " + str(key.get("symptom")), key=key)
     ctx.extra["t_hist_new"] = [round(time.time() - t0, 1), round(_cpu() - c0, 1)]
 
@@ -2763,7 +2787,7 @@ def search(ctx, broken):
     for h, r in zip(hs, rh):
         if isinstance(r, dict) and "malformed" not in r and not r["same"]:
             hh = r.get("shrunk", h)
-            found.append({"leg": "search:history", "case": hh, "observed": {"last_result_in_history": r["full"]},
+            found.append({"leg": "search:history", "case": hh, "observed": {"last_result_in_history": r["full"], "failure_class": r.get("class")},
                           "expected": {"same_call_in_fresh_interpreter": r["fresh"]}, "what": "history: last result differs",
                           "key": history_key(hh, r)})
     return found
@@ -2802,7 +2826,9 @@ def replay(ctx, rep):
         if "malformed" in r:
             print("the recorded history cannot be judged any more (" + r["malformed"] + "): counted as failing")
             return False
-        return bool(r["same"])
+        recorded = (rep.get("observed") or {}).get("failure_class") if isinstance(rep.get("observed"), dict) else None
+        print("recorded kind of failure:", recorded, "- now:", r["class"])
+        return r["class"] is None or (recorded is not None and r["class"] != recorded and r["class"] == "mutation")
     if case.get("kind") == "heap":
         jit = bool(case.get("jit")) or leg == "heap:jit"
         r = _iso("heap_worker_forked", case, jit)
